@@ -7,11 +7,11 @@ From TD Require Model.C04_Tree.
 Open Scope string_scope.
 Open Scope list_scope.
 
-(* what a caller may hand over: tensordicts that are coherent by themselves (they are states of other tensordicts)
-   and contain no hollow node (findings D101/D102 live there); tensors and python objects are unconstrained *)
+(* what a caller may hand over: tensordicts that are coherent by themselves (they are states of other tensordicts);
+   tensors and python objects are unconstrained *)
 Fixpoint value_okb (v : value) : bool :=
   match v with
-  | VTree t => coh [] None t && hollow_free t
+  | VTree t => coh [] None t
   | VStr => true
   | VDict items => forallb (fun kv => value_okb (snd kv)) items
   end.
@@ -24,21 +24,27 @@ Fixpoint max_rank (t : tree) : nat :=
   end.
 
 
+(* no dim names at a node and below it *)
+Fixpoint no_names (t : tree) : bool :=
+  match t with
+  | Leaf _ _ => true
+  | Node _ _ _ nm es => match nm with None => true | Some _ => false end && forallb (fun kv => no_names (snd kv)) es
+  end.
+Definition no_names_below (t : tree) : bool :=
+  match t with Leaf _ _ => true | Node _ _ _ _ es => forallb (fun kv => no_names (snd kv)) es end.
+
 Definition node_keys (t : tree) : list string := match t with Node _ _ _ _ es => map fst es | Leaf _ _ => [] end.
 
-(* the region where the code is free of the recorded defects, decided from the node the call is issued on and the call:
-   - values are tensordicts that are coherent by themselves and contain no hollow node (D101/D102 need one),
-   - batch_size is assigned on a node without hollow descendants (D101/D102),
-   - rename_key_ gets a plain string as new key, unflatten_keys finds no key to split (D103),
-   - auto_batch_size_(k) is in its growing regime: k is not below the rank of a node of the subtree (D108 otherwise),
-     and the subtree has no hollow node (D101) *)
+(* the domain of C01_step, decided from the node the call is issued on and the call.  After the repairs D101/D102/D103
+   no recorded defect of the modelled calls is left; what remains are two hypotheses of the PROOF (not refuted, see
+   notes): when a batch size is assigned (batch_size =, auto_batch_size_) on a node, the nodes below it carry no dim
+   names — a dim-name conflict while the names are pushed down is the one way the call can still fail after it started
+   to resize nested nodes — and auto_batch_size_(k) is in its growing regime (k not below the rank of a node below). *)
 Definition clean0 (self : tree) (o : op0) : bool :=
   match o with
   | OSet _ v _ | OSet_ _ v | OSetDefault _ v | OUpdate v _ => value_okb v
-  | ORename _ new _ => Nat.eqb (List.length new) 1
-  | OBatchSize _ _ => hollow_free self
-  | OUnflatten sep => forallb (fun k => negb (C04_Tree.str_contains sep k)) (node_keys self)
-  | OAutoBS k => hollow_free self && match k with None => true | Some kk => Nat.leb (max_rank self) kk end
+  | OBatchSize _ _ => no_names_below self
+  | OAutoBS k => no_names_below self && match k with None => true | Some kk => Nat.leb (max_rank self) kk end
   | _ => true
   end.
 
